@@ -773,7 +773,7 @@ def main(ck):
   def test(case):
     gm, seed, nsteps = case
     check_case(ck, lib, gm, seed, nsteps, stats)
-  ck.run_hypothesis(test, strat, ck.budget(600, 12000), name='sensors')
+  ck.run_hypothesis(test, strat, ck.budget(600, 10000), name='sensors')
   static_acc_probe(ck, lib, ck.budget(20, 300))
   delay_probe(ck, lib, ck.budget(40, 600))
   ekinetic_probe(ck, lib, ck.budget(30, 300))
